@@ -1,7 +1,9 @@
 (* C05 — AMQP 0-9-1 methods and content are reported exactly.  Statements only, each closed by
-   `exact` (DESIGN.md 5.C05); the family files under Amqp/ hold the proofs. *)
+   `exact` (DESIGN.md 5.C05); the family files under Amqp/ hold the proofs.  The model
+   (AmqpModel.v) is tied to pkg/extensions/amqp by the correspondence check of tools/props/C05.py
+   and, for the signature table, by the translator output gen/AmqpSigs.v. *)
 Require Import V.Base.Prelude V.Amqp.AmqpTypes V.Amqp.AmqpModel V.Amqp.AmqpSpec.
-Require Import V.Amqp.AmqpProofs V.Amqp.AmqpC01 V.Amqp.AmqpFrames V.Amqp.AmqpSigsTie.
+Require Import V.Amqp.AmqpProofs V.Amqp.AmqpC01 V.Amqp.AmqpFrames V.Amqp.AmqpArgs V.Amqp.AmqpMethods V.Amqp.AmqpReport V.Amqp.AmqpSigsTie.
 Local Open Scope N_scope.
 
 (* every field value the specification's encoder can write (all 14 types, nested to any depth)
@@ -13,6 +15,15 @@ Proof. exact AmqpProofs.amqp_field_roundtrip. Qed.
 Theorem amqp_table_roundtrip : forall t r fuel, wf_table t -> (tneed t <= fuel)%nat ->
   read_table fuel (enc_table t ++ r) = POk t r.
 Proof. exact AmqpProofs.amqp_table_roundtrip. Qed.
+
+(* every class/method of the signature table (supported by Dissect or not), every argument list
+   of the right kinds - all bit combinations, strings of 0..255 bytes, any table: decoded to
+   exactly the values encoded *)
+Theorem amqp_method_roundtrip : forall cls meth sig args r fuel,
+  method_sig cls meth = Some sig -> kinds_match (map fst sig) args -> Forall wf_arg args ->
+  Forall (arg_fuel_ok fuel) args ->
+  read_args fuel (map fst sig) None (enc_args args [] ++ r) = POk args r.
+Proof. exact AmqpMethods.amqp_method_roundtrip. Qed.
 
 (* resynchronisation: a frame of a known type - supported method, unsupported method, header,
    body, heartbeat, with a payload that parses or not, with a good or a bad end octet - takes
@@ -31,9 +42,43 @@ Theorem C05_frame_exact_enc : forall typ ch p r tl,
   snd (read_frame st) = {| sdata := r; stail := tl |} /\ frame_or_protocol_error (fst (read_frame st)).
 Proof. exact AmqpFrames.C05_frame_exact_enc. Qed.
 
-Theorem C05_protocol_header : forall r tl,
-  read_frame {| sdata := proto_header ++ r; stail := tl |} = (Ok FrProto, {| sdata := r; stail := tl |}).
-Proof. exact proto_header_exact. Qed.
+(* a well-formed frame (protocol header, heartbeat, any method of the table, content header
+   with any subset of the 14 property flags and a body size within the cap, body) is read back
+   as exactly the abstract frame, leaving exactly the rest of the stream *)
+Theorem C05_frame_roundtrip : forall f r tl, wf_frame f ->
+  read_frame {| sdata := enc_frame f ++ r; stail := tl |} = (Ok f, {| sdata := r; stail := tl |}).
+Proof. exact read_frame_roundtrip. Qed.
+
+(* C05_report, partial.  Proved: for every pair of sequences of well-formed frames (any number
+   of channels interleaved, supported and unsupported methods, content, heartbeats, protocol
+   header) the two Dissect calls - client half first, as the suite drives them - decode every
+   frame exactly and apply `step` (main.go's handling of one decoded frame, with the matcher) to
+   the abstract frames in order: items and matcher residue are the fold of `step`; nothing is
+   misdecoded, skipped or decoded twice.
+   Missing for the full statement "items = exact report of the conversation outside the recorded
+   finding classes": a specification-level `report` written independently of `step`, and the
+   proof that the fold of `step` equals it when no finding class is triggered (unique pairing
+   keys, client-initiated requests, contiguous single-frame bodies of 1..512 bytes, no
+   handshake).  That equality is what the oracle of tools/props/C05.py checks on the
+   implementation against tools/fam/amqp.py ideal_report / design_report for every generated
+   conversation; the finding classes are the `excl` of DESIGN.md 5.C05 and are computed there. *)
+Theorem C05_report_partial : forall cfs sfs ct st_, Forall wf_frame cfs -> Forall wf_frame sfs ->
+  dissect_both true {| sdata := enc_frames cfs; stail := ct |} {| sdata := enc_frames sfs; stail := st_ |} =
+  (end_outcome ct, end_outcome st_,
+   snd (run_frames false sfs (init_dstate, snd (run_frames true cfs (init_dstate, init_mstate))))).
+Proof. exact report_frames. Qed.
+
+(* the hypotheses are satisfiable: a publish with content on channel 1 *)
+Example C05_wf_example :
+  Forall wf_frame [FrProto; FrMethod 1 60 40 [AShort 0; AShortStr [x65]; AShortStr []; ABit true; ABit false];
+                   FrHeader 1 60 0 3 (flags_val [Some (AShortStr [x74]); None; Some (ATable [([x6b], FInt 7%Z)]); None; None; None; None; None; None; Some (ATime 0%Z); None; None; None; None] 15)
+                            [Some (AShortStr [x74]); None; Some (ATable [([x6b], FInt 7%Z)]); None; None; None; None; None; None; Some (ATime 0%Z); None; None; None; None];
+                   FrBody 1 [x61; x62; x63]; FrHeartbeat 0].
+Proof.
+  repeat constructor; cbn; try lia; try (unfold Blen, max_frame, max_str; cbn; lia);
+    try (eexists; split; [reflexivity|]; split; repeat constructor; cbn; unfold Blen; cbn; lia);
+    unfold wf_table, wf_entries, time_ok, in_s, max_str, Blen; cbn; repeat constructor; cbn; lia.
+Qed.
 
 (* the signature table the theorems and the model use is the one spec091.go has now *)
 Theorem C05_sigs_current : forallb entry_agrees V.gen.AmqpSigs.gen_sigs = true.
